@@ -88,10 +88,12 @@ PROPS = {
             "runs": [rep("snapshots", 640, 32, 10000, 45, 2)], "modelled": FS},
     "C07": {"lean": ["JivaVerif.Properties.C07", "JivaVerif.Properties.Controller"],
             "prefixes": ["c07_", "sameWrites_", "c10_promotion", "ctl_reachable_inv"],
-            "runs": [rep("rebuild", 320, 30, 8000, 40, 8), ctl("membership", 320, 30, 6000, 40, 18)],
+            "runs": [rep("rebuild", 320, 30, 8000, 40, 8), ctl("membership", 320, 30, 6000, 40, 18),
+                     dict(rep("rebuildreal", 16, 25, 320, 30, 28), **{"quick": {"n": 16, "len": 25, "timeout": 900}, "thorough": {"n": 320, "len": 30, "timeout": 6000}})],
             "modelled": FS + CTL + [
                 "harness (rebuild profile): a REAL controller with the REAL remote backend drives three REAL replicas behind their REST and RPC servers on loopback addresses (harness/stack); the harness plays the sync agent only: it copies the source's snapshot files (holes preserved) and head metadata under the newcomer, reloads it without preload and calls UpdateLUNMap, as sync.syncFiles / reloadAndVerify do",
-                "modelled: the file transfer itself (sync agent, ssync child processes, HTTP range protocol of sparse-tools) is replaced by a sparse copy; an interrupted transfer is covered only as far as the controller's gate goes (c07_gate: no promotion without equal chains; the replica stays WO / is dropped)",
+                "profile rebuildreal: the WHOLE procedure is run by the real sync.Task.AddReplica against the real controller REST server — registration check, CreateReplica, SetRebuilding, PrepareRebuild (head metadata transfer), the chain / counter comparison, syncFiles with the real sync agents and ssync child processes, ReloadReplica, SyncDir, UpdateLUNMap, VerifyRebuildReplica, SetRebuilding(false); the harness only holds three of its REST requests (preparerebuild, the response of reload, verifyrebuild) to place foreground writes in between; profile rebuild (25 times faster) replaces the transfer by a sparse copy and calls Reload / UpdateLUNMap / VerifyRebuildReplica itself in the order of sync.reloadAndVerify",
+                "an interrupted transfer is covered only as far as the controller's gate goes (c07_gate: no promotion without equal chains; the replica stays WO / is dropped)",
                 "modelled: the rebuilt replica's image is computed by the model from the source's state (c07_identical / c07_rebuild justify this); crash points of the rebuilding or source process are not enumerated here (C08 covers the replica directory, C02/C05 the controller's reaction)"]},
     "C19": {"lean": ["JivaVerif.Properties.C19"], "prefixes": ["c19_"],
             "runs": [dict(rep("clone", 32, 26, 800, 32, 9), **{"quick": {"n": 32, "len": 26, "timeout": 900}, "thorough": {"n": 800, "len": 32, "timeout": 6000}})],
